@@ -799,6 +799,8 @@ class Engine:
             fv = fv.get()
         if isinstance(fv, DynV):
             fv = fv.val
+        if isinstance(fv, PyFn):
+            return fv.fn(self, list(args))
         if isinstance(fv, Closure):
             if fv.span.startswith('fn:'):
                 return self.call(fv.span[3:], args)
